@@ -3,23 +3,31 @@
 usage: gen_iter.py <container-field> <ContainerRecv> [forward]   e.g. gen_iter.py stack Stack"""
 import sys
 C, Recv = sys.argv[1], sys.argv[2]
-forward = len(sys.argv) > 3 and sys.argv[3] == "forward"
+forward = "forward" in sys.argv[3:]
+cached = "cached" in sys.argv[3:]      # linked-list iterators cache the current element
+byvalue = "byvalue" in sys.argv[3:]    # Iterator() returns the struct by value
 N = "len(Seq(iterator.%s))" % C
 S = "Seq(iterator.%s)" % C
+MOD = "iterator.index, iterator.element" if cached else "iterator.index"
+CACHE = (" && (0 <= it.index && it.index < len(Seq(it.%s)) ==> it.element == it.%s.nodes[it.index])" % (C, C)) if cached else ""
+if byvalue:
+    ITER_POST = "result.%s == %s && result.index == 0 - 1" % (C, C) + (" && result.element == nil" if cached else "")
+else:
+    ITER_POST = "fresh(result) && ItInv(result) && result.%s == %s && result.index == 0 - 1" % (C, C)
 out = []
 out.append("""
 // ---- iterator: a cursor over positions -1..n of Seq(%(C)s) (C08) ----
 
-//@ pred ItInv(it) := it != nil && it.%(C)s != nil && Inv(it.%(C)s) && 0 - 1 <= it.index && it.index <= len(Seq(it.%(C)s))
+//@ pred ItInv(it) := it != nil && it.%(C)s != nil && Inv(it.%(C)s) && 0 - 1 <= it.index && it.index <= len(Seq(it.%(C)s))%(CACHE)s
 
 //@ func %(Recv)s.Iterator
 //@   requires Inv(%(C)s)
 //@   modifies nothing
-//@   ensures [C08 C17 C18] fresh(result) && ItInv(result) && result.%(C)s == %(C)s && result.index == 0 - 1
+//@   ensures [C08 C17 C18] %(ITER_POST)s
 
 //@ func Iterator.Next
 //@   requires ItInv(iterator)
-//@   modifies iterator.index
+//@   modifies %(MOD)s
 //@   ensures [C08 C17] ItInv(iterator) && iterator.index == min(old(iterator.index) + 1, %(N)s)
 //@   ensures [C08] result == (0 <= iterator.index && iterator.index < %(N)s)
 
@@ -35,17 +43,17 @@ out.append("""
 
 //@ func Iterator.Begin
 //@   requires ItInv(iterator)
-//@   modifies iterator.index
+//@   modifies %(MOD)s
 //@   ensures [C08 C17] ItInv(iterator) && iterator.index == 0 - 1
 
 //@ func Iterator.First
 //@   requires ItInv(iterator)
-//@   modifies iterator.index
+//@   modifies %(MOD)s
 //@   ensures [C08 C17] ItInv(iterator) && iterator.index == 0 && result == (%(N)s > 0)
 
 //@ func Iterator.NextTo
 //@   requires ItInv(iterator) && f != nil
-//@   modifies iterator.index
+//@   modifies %(MOD)s
 //@   ensures [C08 C17] ItInv(iterator)
 //@   ensures [C08] found: result ==> old(iterator.index) < iterator.index && iterator.index < %(N)s && f(iterator.index, %(S)s[iterator.index])
 //@     && (forall j :: old(iterator.index) < j && j < iterator.index ==> !f(j, %(S)s[j]))
@@ -54,28 +62,28 @@ out.append("""
 //@     invariant ItInv(iterator) && old(iterator.index) <= iterator.index
 //@     invariant forall j :: old(iterator.index) < j && j <= iterator.index && j < %(N)s ==> !f(j, %(S)s[j])
 //@     decreases %(N)s - iterator.index
-""" % dict(C=C, Recv=Recv, N=N, S=S))
+""" % dict(C=C, Recv=Recv, N=N, S=S, MOD=MOD, CACHE=CACHE, ITER_POST=ITER_POST))
 if not forward:
     out.append("""
 //@ func Iterator.Prev
 //@   requires ItInv(iterator)
-//@   modifies iterator.index
+//@   modifies %(MOD)s
 //@   ensures [C08 C17] ItInv(iterator) && iterator.index == max(old(iterator.index) - 1, 0 - 1)
 //@   ensures [C08] result == (0 <= iterator.index && iterator.index < %(N)s)
 
 //@ func Iterator.End
 //@   requires ItInv(iterator)
-//@   modifies iterator.index
+//@   modifies %(MOD)s
 //@   ensures [C08 C17] ItInv(iterator) && iterator.index == %(N)s
 
 //@ func Iterator.Last
 //@   requires ItInv(iterator)
-//@   modifies iterator.index
+//@   modifies %(MOD)s
 //@   ensures [C08 C17] ItInv(iterator) && iterator.index == %(N)s - 1 && result == (%(N)s > 0)
 
 //@ func Iterator.PrevTo
 //@   requires ItInv(iterator) && f != nil
-//@   modifies iterator.index
+//@   modifies %(MOD)s
 //@   ensures [C08 C17] ItInv(iterator)
 //@   ensures [C08] found: result ==> 0 <= iterator.index && iterator.index < old(iterator.index) && f(iterator.index, %(S)s[iterator.index])
 //@     && (forall j :: iterator.index < j && j < old(iterator.index) ==> !f(j, %(S)s[j]))
@@ -84,5 +92,5 @@ if not forward:
 //@     invariant ItInv(iterator) && iterator.index <= old(iterator.index)
 //@     invariant forall j :: iterator.index <= j && j < old(iterator.index) && 0 <= j ==> !f(j, %(S)s[j])
 //@     decreases iterator.index + 1
-""" % dict(C=C, Recv=Recv, N=N, S=S))
+""" % dict(C=C, Recv=Recv, N=N, S=S, MOD=MOD, CACHE=CACHE, ITER_POST=ITER_POST))
 print("".join(out))
